@@ -2,6 +2,7 @@ package main
 
 import (
 	"fmt"
+	"github.com/criyle/go-sandbox/cmd/runprog/config"
 	"os"
 	"path/filepath"
 	"strings"
@@ -108,7 +109,7 @@ func init() {
 			Level: "exploration",
 			Rule: "family 0: every entry set of size ≤ setMax over {exact, d/, d/*} × paths(depth) ∪ {Add(/), /*}, every query path incl. / and \"\"; " +
 				"family 1: every 4-tuple (Writable,Readable,Statable,SoftBan) of sets of size ≤ 1 at depth 2, Handler.CheckRead/Write/Stat on every query; " +
-				"family 2: real symlink forest, raw-or-real clause; family 3: counter tables of ≤ 2 names × counts {-1..3}, all call sequences ≤ seqLen. " +
+				"family 2: real symlink forest, raw-or-real clause; family 3: counter tables of ≤ 2 names × counts {-1..3}, all call sequences ≤ seqLen; family 4: sets produced by the grant constructors (AddFilePermission of every path × permission, singly and in pairs; the shipped GetConf loader for every program type) — the admitted set is exactly the granted path in its class plus its proper ancestor directories as exact stat entries, on every query incl. \"\" and unresolvable names. " +
 				"non-trivial: the entry set is non-empty and the query is not literally one of the entries; distinct = hash of (family, set, query, answer)",
 			Bound: map[string]any{"depth": depth, "set_size": setMax, "cascade_depth": cascadeDepth, "counter_seq_len": seqLen,
 				"excluded": []string{"query / against entry /* (is the root a child of itself?)", "hand-inserted map key \"/\" (not constructible through Add/AddRange)"}},
@@ -143,7 +144,9 @@ func init() {
 			}
 		}
 		spec.Body = func(x *mc.X) {
-			switch x.Choose(4, "family") {
+			switch x.Choose(5, "family") {
+			case 4:
+				c18constructors(x, cpaths, queries)
 			case 0:
 				c18single(x, entries, queries, setMax)
 			case 1:
@@ -392,4 +395,117 @@ func c18counter(x *mc.X, seqLen int) {
 		x.Distinct(fmt.Sprint("k", budget, seq, trace))
 	}
 	x.Outcome(fmt.Sprintf("counter:allow=%d,kill=%d,ban=%d", strings.Count(trace, "0"), strings.Count(trace, "2"), strings.Count(trace, "1")))
+}
+
+// c18constructors: the sets are produced by the grant constructor instead of being written down. AddFilePermission(p, perm)
+// grants p in the class of perm and every proper ancestor directory of p as an exact stat entry — nothing else: in
+// particular not the empty path, which stands for an unresolvable name.
+func c18constructors(x *mc.X, paths, queries []string) {
+	cands := append([]string{"/", "rel/name", "name"}, paths...)
+	perms := []filehandler.FilePerm{filehandler.FilePermWrite, filehandler.FilePermRead, filehandler.FilePermStat}
+	pn := []string{"", "write", "read", "stat"}
+	if x.Choose(2, "source") == 1 {
+		// the shipped loader: whatever it grants, the unresolvable name and names outside every granted tree are refused
+		// (the compiler profile grants "/*", the direct children of the root: the probes lie at least two levels down)
+		types := []string{"", "python3", "compiler", "default"}
+		pt := types[x.Choose(len(types), "type")]
+		wp := []string{"/vq0p/work", "/vq0p"}[x.Choose(2, "workpath")]
+		_, _, _, h := config.GetConf(pt, wp, []string{wp + "/a.out"}, nil, nil, false)
+		x.Note("family", "constructors/GetConf")
+		x.Note("config", fmt.Sprintf("type %q work path %s", pt, wp))
+		tally := map[string]int{}
+		for _, q := range []string{"", "/vq0q/unresolvable/elsewhere", "/vq0q/two-levels", "vq0q/relative-unresolvable"} {
+			got := [3]ptracer.TraceAction{h.CheckWrite(q), h.CheckRead(q), h.CheckStat(q)}
+			for c := 0; c < 3; c++ {
+				x.Count(1)
+				tally[fmt.Sprint(got[c])]++
+				x.Distinct(fmt.Sprint("g", pt, wp, q, c, got[c]))
+				if got[c] == ptracer.TraceAllow {
+					x.Failf(fmt.Sprintf("C18/getconf-admits-uncovered-%s", pn[c+1]), "GetConf(%q, %s): Check%s(%q) is allowed although no granted entry covers it", pt, wp, pn[c+1], q)
+				}
+			}
+		}
+		// and what it grants is granted
+		if h.CheckRead(wp+"/a.out") != ptracer.TraceAllow || h.CheckStat(wp) != ptracer.TraceAllow {
+			x.Failf("C18/getconf-refuses-granted", "GetConf(%q, %s): the program file or the work path is not admitted", pt, wp)
+		}
+		x.Outcome(fmt.Sprintf("getconf:%v", tally))
+		return
+	}
+	type grant struct {
+		p    string
+		perm filehandler.FilePerm
+	}
+	var gs []grant
+	n := 1 + x.Choose(2, "grants")
+	for i := 0; i < n; i++ {
+		gs = append(gs, grant{cands[x.Choose(len(cands), "path")], perms[x.Choose(3, "perm")]})
+	}
+	sets := filehandler.NewFileSets()
+	var desc []string
+	var model [4][]c18entry // index by FilePerm (1 write, 2 read, 3 stat)
+	for _, g := range gs {
+		sets.AddFilePermission(g.p, g.perm)
+		desc = append(desc, fmt.Sprintf("AddFilePermission(%q, %s)", g.p, pn[g.perm]))
+		if g.p == "/" {
+			model[g.perm] = append(model[g.perm], c18entry{1, ""}) // Add("/") is the root entry (see family 0)
+		} else {
+			model[g.perm] = append(model[g.perm], c18entry{0, g.p})
+		}
+		for a := g.p; ; {
+			i := strings.LastIndex(a, "/")
+			if i <= 0 {
+				break
+			}
+			a = a[:i]
+			model[filehandler.FilePermStat] = append(model[filehandler.FilePermStat], c18entry{0, a})
+		}
+	}
+	x.Note("family", "constructors/AddFilePermission")
+	x.Note("grants", desc)
+	h := &filehandler.Handler{FileSet: sets, SyscallCounter: filehandler.NewSyscallCounter()}
+	cov := func(perm filehandler.FilePerm, q string) bool {
+		for _, e := range model[perm] {
+			if e.kind == 1 && e.d == "" {
+				if q == "/" { // the root entry admits the root itself
+					return true
+				}
+				continue // whether Add("/") also covers everything beneath is family 0's question, not asked here
+			}
+			if c18covers(e, q) {
+				return true
+			}
+		}
+		return false
+	}
+	rootGranted := false
+	for _, g := range gs {
+		if g.p == "/" {
+			rootGranted = true
+		}
+	}
+	tally := map[string]int{}
+	for _, q := range queries {
+		if rootGranted && q != "" && q != "/" {
+			continue
+		}
+		w := cov(filehandler.FilePermWrite, q)
+		r := w || cov(filehandler.FilePermRead, q)
+		st := r || cov(filehandler.FilePermStat, q)
+		exp := [3]bool{w, r, st}
+		got := [3]ptracer.TraceAction{h.CheckWrite(q), h.CheckRead(q), h.CheckStat(q)}
+		for c := 0; c < 3; c++ {
+			x.Count(1)
+			want := ptracer.TraceKill
+			if exp[c] {
+				want = ptracer.TraceAllow
+			}
+			tally[fmt.Sprint(got[c])]++
+			x.Distinct(fmt.Sprint("k", desc, q, c, got[c]))
+			if got[c] != want {
+				x.Failf(fmt.Sprintf("C18/constructor-%s-exp%d-got%d", pn[c+1], want, got[c]), "%v: Check%s(%q) = %d, expected %d (0 allow, 1 ban, 2 kill)", desc, pn[c+1], q, got[c], want)
+			}
+		}
+	}
+	x.Outcome(fmt.Sprintf("constructors:%v", tally))
 }
